@@ -14,7 +14,14 @@ ASSUME = BASE_ASSUME + ["spec/sm83.py access table is the oracle (documentation-
 
 
 def tasks(ctx):
-    return filter_tasks([cc.opcode_task("C03", ch, i) for i, ch in enumerate(cc.opcode_chunks(32))])
+    ts = [cc.opcode_task("C03", ch, i) for i, ch in enumerate(cc.opcode_chunks(32))]
+    # an access the CPU makes in cycle k reaches the addressed location in that same cycle: for plain memory and registers that is
+    # the decoder (C06); for OAM, which filters CPU accesses (DMA, mode-2 bug bookkeeping), the Read/Write contracts say that the
+    # byte is delivered at once whenever OAM is accessible
+    from engine.driver import Task
+    ts.append(Task("(*oam.OAM).Write", "(*oam.OAM).Write"))
+    ts.append(Task("(*oam.OAM).Read", "(*oam.OAM).Read"))
+    return filter_tasks(ts)
 
 
 def run(tier, seed):
